@@ -834,6 +834,8 @@ coap_query_into_optlist(const uint8_t *s, size_t length, coap_option_num_t optnu
     if (*s == '&') {                /* start of new query element */
       /* add previous query element */
       optlist = coap_new_optlist(optnum, s - p, p);
+      if (!optlist)
+        return 0;
       coap_replace_percents(optlist);
       if (!coap_insert_optlist(optlist_chain, optlist)) {
         return 0;
@@ -845,6 +847,8 @@ coap_query_into_optlist(const uint8_t *s, size_t length, coap_option_num_t optnu
   }
   /* add last query element */
   optlist = coap_new_optlist(optnum, s - p, p);
+  if (!optlist)
+    return 0;
   coap_replace_percents(optlist);
   if (!coap_insert_optlist(optlist_chain, optlist)) {
     return 0;
